@@ -9,11 +9,12 @@ import (
 
 // Runner interprets protocol lines on the real implementation.
 type Runner struct {
-	stores  map[int]*storeEntry
-	maps    map[int]*mapEntry
-	sks     map[int]*skEntry
-	dss     map[int]*dsEntry
-	addMode int
+	stores   map[int]*storeEntry
+	maps     map[int]*mapEntry
+	sks      map[int]*skEntry
+	dss      map[int]*dsEntry
+	addMode  int
+	ctorMode int
 	// per-history switches set by `#frame` (observe before/after every refused call)
 	checkFrame bool
 	quiet      bool
